@@ -6,7 +6,8 @@
 EXTENDS IoHelpers, TLC, Json, SequencesExt
 
 CONSTANTS Family,   \* "rte" | "rte2" | "rex" | "rts" | "rtsbig" | "utf8" | "wa" | "wf"
-          L         \* maximal script length (including the terminal item)
+          L,        \* maximal script length (including the terminal item)
+          GrowExtra \* further capacities reserve(32) may yield: len + 32 + x for x in GrowExtra
 
 C(k) == [t |-> "c", k |-> k]
 EOF_ == [t |-> "eof", k |-> 0]
@@ -18,7 +19,7 @@ ZERO == [t |-> "zero", k |-> 0]
 SeqsUpTo(S, n) == UNION {[1..k -> S] : k \in 0..n}
 
 \* environment choices of the allocator: the amortised growth of RawVec and the minimal one
-MCGrow(len, c) == {Max(2 * c, len + 32), len + 32}
+MCGrow(len, c) == {Max(2 * c, len + 32), len + 32} \cup {len + 32 + x : x \in GrowExtra}
 MCProbeGrow(c, n) == {Max(Max(2 * c, c + n), 8), c + n}
 
 \* byte contents: the driver uses the same functions, so model and real buffers are comparable
